@@ -45,16 +45,16 @@ type tsyncScript struct {
 	Flags        uint32   `json:"flags"`
 	LoaderMain   bool     `json:"loader_main"`
 	NNP          bool     `json:"nnp"`
-	Preload      bool     `json:"preload"`        // the loader first loads the same policy without thread-sync
-	Divergent    bool     `json:"divergent"`      // the first phase thread installs a private filter (policy B) before the load
-	PriorSync    bool     `json:"prior_sync"`     // the loader first loads another policy (B) WITH thread-sync: every thread then has one filter; the load under test follows
-	Uname26      bool     `json:"uname26"`        // the child runs under the UNAME26 personality: uname(2) reports release 2.6.x
-	LogPolicy    bool     `json:"log_policy"`     // the policy under test also has a group and a default with the LOG *action* (which has nothing to do with the log flag)
-	Unpriv       bool     `json:"unprivileged"`   // the child runs as uid 65534: without no_new_privs the kernel refuses (EACCES), and a nil result is only acceptable if every thread is covered
-	OuterDenyAux bool     `json:"outer_deny_aux"` // the process runs under a filter that answers EPERM to every seccomp(2) operation other than SET_MODE_STRICT / SET_MODE_FILTER (support probes such as GET_ACTION_AVAIL fail, loads work)
+	Preload      bool     `json:"preload"`           // the loader first loads the same policy without thread-sync
+	Divergent    bool     `json:"divergent"`         // the first phase thread installs a private filter (policy B) before the load
+	PriorSync    bool     `json:"prior_sync"`        // the loader first loads another policy (B) WITH thread-sync: every thread then has one filter; the load under test follows
+	Uname26      bool     `json:"uname26"`           // the child runs under the UNAME26 personality: uname(2) reports release 2.6.x
+	LogPolicy    bool     `json:"log_policy"`        // the policy under test also has a group and a default with the LOG *action* (which has nothing to do with the log flag)
+	Unpriv       bool     `json:"unprivileged"`      // the child runs as uid 65534: without no_new_privs the kernel refuses (EACCES), and a nil result is only acceptable if every thread is covered
+	OuterDenyAux bool     `json:"outer_deny_aux"`    // the process runs under a filter that answers EPERM to every seccomp(2) operation other than SET_MODE_STRICT / SET_MODE_FILTER (support probes such as GET_ACTION_AVAIL fail, loads work)
 	OuterEINVAL  uint32   `json:"outer_einval_mask"` // the process runs under a filter that answers EINVAL to seccomp(SET_MODE_FILTER, flags, ..) whenever flags has a bit of this mask (a kernel that does not know those flag bits yet)
-	OuterENOSYS  bool     `json:"outer_enosys"`   // the whole process already runs under a filter that answers ENOSYS to seccomp(2) (as if the kernel lacked it)
-	ExeName      string   `json:"exe_name"`       // the child is started under this executable name (what /proc/<pid>/stat and comm show), e.g. one with blanks and parentheses
+	OuterENOSYS  bool     `json:"outer_enosys"`      // the whole process already runs under a filter that answers ENOSYS to seccomp(2) (as if the kernel lacked it)
+	ExeName      string   `json:"exe_name"`          // the child is started under this executable name (what /proc/<pid>/stat and comm show), e.g. one with blanks and parentheses
 }
 
 type tsyncThread struct {
@@ -347,6 +347,7 @@ type nnpReport struct {
 	Moved            bool        `json:"moved"`
 	MoveImpossible   bool        `json:"migration_impossible"`
 	PreNNPDone       bool        `json:"pre_nnp_done"`
+	CgoLinked        bool        `json:"cgo_linked"`
 	ControlMoved     bool        `json:"control_moved"` // the same manoeuvre on an unpinned goroutine in this process
 	TargetPreexisted bool        `json:"target_thread_preexisted"`
 	NNPAtSeam        int         `json:"nnp_at_seam"`
@@ -397,7 +398,7 @@ func childNNP(args []string) {
 	if err := json.NewDecoder(bufio.NewReader(os.Stdin)).Decode(&sc); err != nil {
 		os.Exit(2)
 	}
-	rep := nnpReport{Uid: os.Getuid(), NNPAtSeam: -1, NNPOnStartThread: -1}
+	rep := nnpReport{Uid: os.Getuid(), NNPAtSeam: -1, NNPOnStartThread: -1, CgoLinked: cgoLinked}
 	if sc.DenyPrctl {
 		// ld nr; jeq 157 (prctl) -> ret ERRNO|EPERM; ret ALLOW, on every thread; needs privilege because the bit must stay 0
 		outer := rawProg{{0x20, 0, 0, 0}, {0x15, 0, 1, 157}, {0x06, 0, 0, 0x00050001}, {0x06, 0, 0, 0x7fff0000}}
